@@ -78,29 +78,29 @@ template <unsigned N> unsigned usefulStates(const SymAut<N>& a) {
 }
 template <unsigned N> bool langEmpty(const SymAut<N>& a) { return (productive(a) & finalMask(a)) == 0; }
 // L(A) subseteq L(B): reachable (state of A, macro-state of B) pairs, bottom-up
-template <unsigned NA, unsigned NB> bool included(const SymAut<NA>& a, const SymAut<NB>& b) {
-  enum { MS = 1u << NB };
-  bool tab[NA][MS]; for (unsigned q = 0; q < NA; ++q) for (unsigned S = 0; S < MS; ++S) tab[q][S] = false;
+template <unsigned PA, unsigned PB> bool included(const SymAut<PA>& a, const SymAut<PB>& b) {
+  enum { MS = 1u << PB };
+  bool tab[PA][MS]; for (unsigned q = 0; q < PA; ++q) for (unsigned S = 0; S < MS; ++S) tab[q][S] = false;
   // post of B for symbol s on macro-states (S0,S1)
-  for (unsigned it = 0; it < NA * MS; ++it) {
-    for (unsigned i = 0; i < a.nrules; ++i) { Rule r = Univ<NA>::rule(i);
+  for (unsigned it = 0; it < PA * MS; ++it) {
+    for (unsigned i = 0; i < a.nrules; ++i) { Rule r = Univ<PA>::rule(i);
       if (r.rank == 0) {
-        unsigned S = 0; for (unsigned p = 0; p < NB; ++p) S |= (unsigned)b.has(r.sym, p) << p;
+        unsigned S = 0; for (unsigned p = 0; p < PB; ++p) S |= (unsigned)b.has(r.sym, p) << p;
         // S is data dependent: set tab[parent][S] for the actual S
         for (unsigned X = 0; X < MS; ++X) tab[r.parent][X] |= a.pres[i] & (S == X);
       } else if (r.rank == 1) {
         for (unsigned S0 = 0; S0 < MS; ++S0) { bool en = a.pres[i] & tab[r.child[0]][S0];
-          unsigned S = 0; for (unsigned p = 0; p < NB; ++p) { bool any = false; for (unsigned c = 0; c < NB; ++c) any |= b.has(r.sym, p, c) & ((S0 >> c) & 1); S |= (unsigned)any << p; }
+          unsigned S = 0; for (unsigned p = 0; p < PB; ++p) { bool any = false; for (unsigned c = 0; c < PB; ++c) any |= b.has(r.sym, p, c) & ((S0 >> c) & 1); S |= (unsigned)any << p; }
           for (unsigned X = 0; X < MS; ++X) tab[r.parent][X] |= en & (S == X); }
       } else {
         for (unsigned S0 = 0; S0 < MS; ++S0) for (unsigned S1 = 0; S1 < MS; ++S1) { bool en = a.pres[i] & tab[r.child[0]][S0] & tab[r.child[1]][S1];
-          unsigned S = 0; for (unsigned p = 0; p < NB; ++p) { bool any = false; for (unsigned c = 0; c < NB; ++c) for (unsigned d = 0; d < NB; ++d) any |= b.has(r.sym, p, c, d) & ((S0 >> c) & 1) & ((S1 >> d) & 1); S |= (unsigned)any << p; }
+          unsigned S = 0; for (unsigned p = 0; p < PB; ++p) { bool any = false; for (unsigned c = 0; c < PB; ++c) for (unsigned d = 0; d < PB; ++d) any |= b.has(r.sym, p, c, d) & ((S0 >> c) & 1) & ((S1 >> d) & 1); S |= (unsigned)any << p; }
           for (unsigned X = 0; X < MS; ++X) tab[r.parent][X] |= en & (S == X); }
       }
     }
   }
   unsigned fb = finalMask(b); bool bad = false;
-  for (unsigned q = 0; q < NA; ++q) for (unsigned S = 0; S < MS; ++S) bad |= tab[q][S] & a.fin[q] & ((S & fb) == 0);
+  for (unsigned q = 0; q < PA; ++q) for (unsigned S = 0; S < MS; ++S) bad |= tab[q][S] & a.fin[q] & ((S & fb) == 0);
   return !bad;
 }
 }
